@@ -287,7 +287,10 @@ def run(ctx):
         except LatticeException:
             pass
         except Exception as ex:
-            ctx.impl_violation(f"{name}: make_dual raised {type(ex).__name__}: {ex}", dict(case=name, op="dual", lattice=zoo.lat_to_json(l0)))
+            if "small" in str(ex):
+                ctx.count("dual_precondition_excluded_too_small")      # the documented exception (two dual edges would coincide): the statement's precondition fails
+            else:
+                ctx.impl_violation(f"{name}: make_dual raised {type(ex).__name__}: {ex}", dict(case=name, op="dual", lattice=zoo.lat_to_json(l0)))
     outs = core.Driver().run_parallel(reqs)
     for (name, op, l, res, rows), o in zip(meta, outs):
         brk = lambda what, **kw: ctx.corr_break(f"{name}: {what}", dict(case=name, op=op, lattice=zoo.lat_to_json(l), **kw))
